@@ -381,6 +381,11 @@ func (fv *FV) bindResults(env *Env, st *State, sig *types.Signature, res []SymVa
 		if i < len(names) && names[i] != "" {
 			env.vars[names[i]] = t
 		}
+		if i == rs.Len()-1 && rs.At(i).Name() == "" && types.TypeString(rs.At(i).Type(), nil) == "error" {
+			if _, taken := env.vars["err"]; !taken {
+				env.vars["err"] = t
+			}
+		}
 	}
 }
 
